@@ -1,7 +1,7 @@
 SPECIFICATION Spec
 CONSTANTS
   MaxTok = 3
-  TokSet = {"A","SP","DQ","SQ","V","VD","VU","VL","AR","AO","BD","BB","BA","BQ","BR","TI","SL","OB","OA"}
+  TokSet = {"A","SP","DQ","SQ","V","VD","VU","VL","VE","AR","AO","BD","BB","BA","BQ","BR","TI","SL","OB","OA"}
   VSet = {1,2,3,4,5,6}
   NSet = {1,2}
   ISet = {1,2}
